@@ -215,7 +215,7 @@ def contact_forces(m, d, mm, dd, cfg):
   cdim, cfric, cadr, cworld = dd.contact.dim.numpy(), dd.contact.friction.numpy().astype(np.float64), dd.contact.efc_address.numpy(), dd.contact.worldid.numpy()
   cframe, cadh, cgeom, cpos = dd.contact.frame.numpy().astype(np.float64), dd.contact.adhesion.numpy().astype(np.float64), dd.contact.geom.numpy(), dd.contact.pos.numpy()
   efc = dd.efc.force.numpy().astype(np.float64)
-  same = H.same_constraints(m, d, dd, 0, frames=pyramidal)
+  same = H.same_constraints(m, d, dd, 0, frames=pyramidal, masses=True)
   st["same_constraint_set"] = int(same)
   mj = []
   for i in range(d.ncon):
